@@ -13,7 +13,7 @@ TB_COMMON = [KERNEL, 'axioms: propext, Classical.choice, Quot.sound only (audite
 
 # theorem registry: property -> [(module, [theorem names])]
 THEOREMS = {
-    'C11': [('ChessVerif.Props.C11', ['Chess.Props.C11_slider', 'Chess.Props.C11_leapers', 'Chess.Props.C11_lines', 'Chess.Props.C11_pawn'])],
+    'C11': [('ChessVerif.Props.C11', ['Chess.Props.C11_slider', 'Chess.Props.C11_leapers', 'Chess.Props.C11_lines', 'Chess.Props.C11_pawn']), ('ChessVerif.Props.C11Mirror', ['Chess.Props.C11_slider_mirror'])],
     'C01': [('ChessVerif.Props.C01', ['Chess.Props.C01_movegen_exact', 'Chess.Props.C01_exact', 'Chess.Props.C01_perft', 'Chess.Props.C01_reachable', 'Chess.Props.C01_exact_noep', 'Chess.Props.C01_unpinned_legal', 'Chess.Props.C01_no_duplicates', 'Chess.Props.C01_move_shape', 'Chess.Props.C01_king_moves_exact', 'Chess.Props.C01_castling_exact', 'Chess.Props.C01_castling_emitted',
                                      'Chess.Props.C01_forbidden_squares', 'Chess.Props.C01_forbidden_nocheck', 'Chess.Props.C01_in_check_test',
                                      'Chess.Props.C01_leaper_geometry_partial', 'Chess.Props.C01_slider_geometry_partial', 'Chess.Props.C01_castling_paths_partial',
@@ -35,7 +35,7 @@ THEOREMS = {
                                      'Chess.Props.C10_capacities', 'Chess.Props.C10_piece_lists'])],
     'C12': [('ChessVerif.Props.C12', ['Chess.Props.C12_kpk', 'Chess.Props.C12_mirror', 'Chess.Props.C12_certificate', 'Chess.Props.C12_index', 'Chess.Props.C12_normalize'])],
     'C13': [('ChessVerif.Props.C13', ['Chess.Props.C13_geometry', 'Chess.Props.C13_normSq_mirror', 'Chess.Props.C13_combine_neg', 'Chess.Props.C13_phase_symm']),
-            ('ChessVerif.Props.C13Mirror', ['Chess.Props.C13_guard_phase_wf', 'Chess.Props.C13_counts_mirror', 'Chess.Props.C13_phase_mirror', 'Chess.Props.C13_material_mirror', 'Chess.Props.C13_king_mirror', 'Chess.Props.C13_king_distance_mirror', 'Chess.Props.C13_bitboards_mirror'])],
+            ('ChessVerif.Props.C13Mirror', ['Chess.Props.C13_pawn_score_mirror', 'Chess.Props.C13_king_safety_mirror', 'Chess.Props.C13_king_shelter_mirror', 'Chess.Props.C13_pawn_attacks_mirror', 'Chess.Props.C13_guard_phase_wf', 'Chess.Props.C13_counts_mirror', 'Chess.Props.C13_phase_mirror', 'Chess.Props.C13_material_mirror', 'Chess.Props.C13_king_mirror', 'Chess.Props.C13_king_distance_mirror', 'Chess.Props.C13_bitboards_mirror'])],
     'C14': [('ChessVerif.Props.C14', ['Chess.Props.C14_cache_transparent', 'Chess.Props.C14_bounded', 'Chess.Props.C14_reachable', 'Chess.Props.C14_constants', 'Chess.Props.C14_cap_partial'])],
     'C15': [('ChessVerif.Props.C15', ['Chess.Props.C15_capture_quiet_full', 'Chess.Props.C15_gives_check_full', 'Chess.Props.C15_reachable', 'Chess.Props.C15_gives_check_noncastle', 'Chess.Props.C15_gives_check', 'Chess.Props.C15_gives_check_ordinary', 'Chess.Props.C15_quiet', 'Chess.Props.C15_castling', 'Chess.Props.C15_capture_rules'])],
     'C17': [('ChessVerif.Props.C17', ['Chess.Props.C17_legal_rules', 'Chess.Props.C17_unambiguous', 'Chess.Props.C17_reachable', 'Chess.Props.C17_roundtrip_wf', 'Chess.Props.C17_roundtrip', 'Chess.Props.C17_matcher_piece', 'Chess.Props.C17_matcher_pawn', 'Chess.Props.C17_castling'])],
